@@ -269,7 +269,7 @@ theorem validate_judged (strict : Bool) (ty : PyType) (tz : Bool) (dv : DeclVals
   | true =>
     simp only [validateJ, Bool.not_true, Bool.false_or, validateOk, modelSchema, if_true]
     rw [check_eq_accept]
-    cases accept fo ty tz dv v <;> simp
+    cases unsettled ty v <;> cases accept fo ty tz dv v <;> simp
 
 /-- whatever the schema, `sv.value = v` stores `v` exactly when it does not raise -/
 theorem setKeeps_setValue (sc : Schema F) (c : Cell F) (v : Val F) :
@@ -282,11 +282,14 @@ theorem set_judged (strict : Bool) (ty : PyType) (tz : Bool) (dv : DeclVals F) (
     let sc := modelSchema strict ty tz dv
     setJ fo strict ty tz dv v (setValue fo sc c v).2 c.read (setValue fo sc c v).1.read = true := by
   intro sc
-  cases strict with
-  | true => exact set_spec fo ty tz dv c v
-  | false =>
-    simp only [setJ, Bool.false_eq_true, if_false]
-    exact setKeeps_setValue fo sc c v
+  unfold setJ
+  cases hc : (strict && !unsettled ty v) with
+  | false => simp only [Bool.false_eq_true, if_false]; exact setKeeps_setValue fo sc c v
+  | true =>
+    simp only [Bool.and_eq_true] at hc
+    obtain ⟨rfl, _⟩ := hc
+    simp only [if_true]
+    exact set_spec fo ty tz dv c v
 
 /-- **upnp_value.** `sv.upnp_value = s` of the model satisfies `setUpnpJ` in both modes -/
 theorem set_upnp_judged (strict : Bool) (row : TypeRow) (dv : DeclVals F) (c : Cell F) (s : Str) :
@@ -294,13 +297,50 @@ theorem set_upnp_judged (strict : Bool) (row : TypeRow) (dv : DeclVals F) (c : C
     setUpnpJ fo strict row.ty row.requireTz dv (coercePython fo table row s) (setUpnpValue fo table row sc c s).2 c.read
       (setUpnpValue fo table row sc c s).1.read = true := by
   intro sc
-  cases strict with
-  | true => exact set_upnp_spec fo row dv c s
-  | false =>
-    simp only [setUpnpJ, Bool.false_eq_true, if_false, setUpnpValue]
-    cases hcv : coercePython fo table row s with
-    | ok v => exact setKeeps_setValue fo sc c v
-    | error e => cases e <;> simp [Cell.read]
+  unfold setUpnpJ
+  cases hcv : coercePython fo table row s with
+  | ok v =>
+    simp only
+    cases hc : (strict && !unsettled row.ty v) with
+    | false =>
+      simp only [Bool.false_eq_true, if_false, setUpnpValue, hcv]
+      exact setKeeps_setValue fo sc c v
+    | true =>
+      simp only [Bool.and_eq_true] at hc
+      obtain ⟨rfl, _⟩ := hc
+      simp only [if_true]
+      have := set_upnp_spec fo row dv c s
+      rw [hcv] at this
+      exact this
+  | error e =>
+    simp only
+    cases strict with
+    | true =>
+      simp only [if_true]
+      have := set_upnp_spec fo row dv c s
+      rw [hcv] at this
+      exact this
+    | false =>
+      simp only [Bool.false_eq_true, if_false, setUpnpValue, hcv]
+      cases e <;> simp [Cell.read]
+
+/-- **argument.** `arg.value = v` on an `UpnpAction.Argument` bound to the variable satisfies the same `setJ` -/
+theorem arg_set_judged (strict : Bool) (ty : PyType) (tz : Bool) (dv : DeclVals F) (c v : Val F) :
+    let sc := modelSchema strict ty tz dv
+    setJ fo strict ty tz dv v (argSetValue fo sc c v).2 c (argSetValue fo sc c v).1 = true := by
+  intro sc
+  have hk : setKeeps v (argSetValue fo sc c v).2 c (argSetValue fo sc c v).1 = true := by
+    unfold setKeeps argSetValue
+    by_cases h : sc.check fo v = true <;> simp [h]
+  unfold setJ
+  cases hc : (strict && !unsettled ty v) with
+  | false => simp only [Bool.false_eq_true, if_false]; exact hk
+  | true =>
+    simp only [Bool.and_eq_true] at hc
+    obtain ⟨rfl, _⟩ := hc
+    simp only [if_true, setOk, argSetValue]
+    rw [show sc.check fo v = accept fo ty tz dv v from rfl]
+    cases accept fo ty tz dv v <;> simp
 
 /-- **spell / in.** every conversion of the model satisfies `spellJ` (and `inOk`, theorem `in_total`) -/
 theorem spell_judged (hf : fo.RoundTrips) (row : TypeRow) (hrow : row ∈ rows) (sp : Spelling) (v : Val F) (s : Str) :
